@@ -25,7 +25,9 @@ pub fn search(ctx: &Context, query: &str, num_results: usize) -> SearchReply {
     SearchReply {
         results: search_internal(ctx, query, num_results)
             .into_iter()
-            .map(|name| {
+            .filter_map(|name| {
+                // A name in the registry can still fail to look up:
+                // `ans` and `_` always mean the previous result.
                 let parts = ctx
                     .lookup(name)
                     .map(|x| x.to_parts(ctx))
@@ -38,15 +40,14 @@ pub fn search(ctx: &Context, query: &str, num_results: usize) -> SearchReply {
                         } else {
                             None
                         }
-                    })
-                    .expect("Search returned non-existent result");
+                    })?;
                 let raw = Dimensionality::base_unit(BaseUnit::new(name));
-                NumberParts {
+                Some(NumberParts {
                     unit: Some(name.to_owned()),
                     raw_unit: Some(raw),
                     quantity: parts.quantity,
                     ..Default::default()
-                }
+                })
             })
             .collect(),
     }
